@@ -198,14 +198,14 @@ def shard(mon, tier, rng, shard_no, nshards):
         r = rng.random()
         if r < 0.45:
             m = int(rng.choice([2, 2, 3, 4]))
-            label, order = gen.random_order(rng, m)
+            label, order = gen.random_order(rng, m, rowscale_p=0.15)
             rect_case(mon, rng, label, order, m)
         elif r < 0.65:
             for _ in range(4):
                 lattice_case(mon, rng)
         else:
             m = int(rng.choice([2, 2, 3, 4]))
-            label, order = gen.random_order(rng, m)
+            label, order = gen.random_order(rng, m, rowscale_p=0.15)
             ell_case(mon, rng, label, order, m)
     mon.notes["solver_status_seen"] = dict(P.SOLVER_STATUS)
     mon.count("natural_solver_errors", P.NATURAL_SOLVER_ERRORS[0])
